@@ -303,8 +303,9 @@ def trCore (withObj : Bool) : P String := do
   let mut starSteps := 0
   -- clause 1 at λ = 0 (theorems control|eval|sarsal_lambda0_bounded): zero start, γ < 1, α ∈ (0,1], ε ∈ [0,1], target rows
   -- are distributions; the interval is the hull of the rewards seen so far
-  -- sub-stochastic rows suffice (theorem eval_lambda0_bounded_sub): the greedy policy objects sum to less than one on near-ties
-  let isDistRows (rows : Rows) : Bool := rows.all (fun r => r.all (fun x => decide (0 ≤ x)) && decide (r.foldl (· + ·) 0 ≤ 1))
+  -- sub-stochastic rows suffice (theorem eval_lambda0_bounded_sub; checker `subDistRows`, sound by `subDistRows_iff`): the greedy
+  -- policy objects sum to less than one on near-ties
+  let isDistRows (rows : Rows) : Bool := subDistRows rows
   let bndClause := lamFamily && lam == 0 && init.all (fun r => r.all (· == 0)) && decide (0 ≤ γ) && decide (γ < 1)
     && decide (0 < α) && decide (α ≤ 1) && decide (0 ≤ ε) && decide (ε ≤ 1) && (!(L.startsWith "e-") || isDistRows πtR)
   let mut rlo : Rat := 0
@@ -365,13 +366,16 @@ def trCore (withObj : Bool) : P String := do
     v := v.diffIf (!(closeTraces tolStep t1 outT)) s!"{comp} step {k} traces model={showTraces t1} impl={showTraces outT}"
     v := v.diffIf (!(closeRowsScaled tolS r1 out)) s!"{comp} step {k} table from-impl-state model={showRows r1} impl={showRows out}"
     -- pure trajectory
-    let ((t2, q2), _) := stepTR L γ α lam tol ε A πt πb mT (ofRows mQ) e
+    let ((t2, q2), tdM) := stepTR L γ α lam tol ε A πt πb mT (ofRows mQ) e
     let r2 := toRows S A q2
+    -- the same ill-conditioned cut-off decision on the TRAJECTORY's own traces: the implementation's eligibility may have been
+    -- rounded onto the cut-off exactly (kept) while the exact rational sits one ulp below it (pruned); not comparable, re-synchronised
+    let nearCutM := mT.any (fun t => !(t.s == s && t.a == a) && (t.el * tdM != tol) && closeQ tolStep (t.el * tdM) tol)
     -- the control learners' trace discount depends on WHICH action attains the max at s1: when the trajectory
     -- table has a near-tie there, one ulp decides and the trajectory is not comparable (it is re-synchronised)
     let qm := ofRows mQ
     let mAm := argmaxA A (qm s1)
-    let nearTie := L.startsWith "c-" && (List.range A).any (fun x => x != mAm && closeQ tolRun (qm s1 x) (qm s1 mAm))
+    let nearTie := nearCutM || (L.startsWith "c-" && (List.range A).any (fun x => x != mAm && closeQ tolRun (qm s1 x) (qm s1 mAm)))
     v := v.diffIf (!nearTie && !(closeRowsScaled tolR r2 out)) s!"{comp} step {k} table trajectory model={showRows r2} impl={showRows out}"
     -- (L3) trace clauses on the implementation's own list
     if lamFamily && decide (tol ≤ 1) then
